@@ -1347,6 +1347,9 @@ func main() {
 		for i := 0; i < n/2+8; i++ {
 			emitTwoEnvelopes(w, seed, i, dir)
 		}
+		for i := 0; i < n/2+16; i++ {
+			emitPayloadDoc(w, seed, i, dir)
+		}
 		w.Close()
 	case "genjv":
 		var n int
@@ -1387,6 +1390,8 @@ func replay(in map[string]any, dir, repo string) {
 		emitHistory(w, seed, num("history_index"))
 	case "history-cert":
 		emitCertHistory(w, seed, num("history_index"))
+	case "payload-doc":
+		emitPayloadDoc(w, seed, num("doc_index"), dir)
 	case "two-envelopes":
 		emitTwoEnvelopes(w, seed, num("env_index"), dir)
 	case "invisible":
